@@ -13,7 +13,7 @@ use std::future::Future;
 use std::panic::{catch_unwind, resume_unwind, AssertUnwindSafe};
 use std::pin::Pin;
 use std::sync::Arc;
-use std::task::{Context, Poll, Wake, Waker};
+use std::task::{Context, Poll, Waker};
 use std::time::Duration;
 
 pub enum SH<T> {
@@ -137,13 +137,24 @@ pub struct Ctx<T: 'static> {
     pub hr: Vec<Box<RH<T>>>,
     futs: [FutI<T>; 4],
     fut_tags: [Option<Tag>; 4],
-    wakers: [Waker; 2],
+    wakers: [HWaker; 2],
     flags: Arc<Flags>,
 }
 
+/// Cross-thread coordination of the harness itself.  Everything here waits
+/// with `park()` in a re-checking loop: loom's own blocking objects (Mutex,
+/// Condvar, Notify/join) do not tolerate a stray `unpark()` aimed at a thread
+/// blocked in them, and late unparks (a peer's wake-up arriving after the woken
+/// operation has already returned) are normal for the code under test.  The
+/// conditions are plain cells (loom runs one thread at a time, so they are
+/// exact); the park/unpark pairs are what loom sees.
 pub struct Flags {
-    m: loom::sync::Mutex<u32>,
-    cv: loom::sync::Condvar,
+    flag: std::cell::Cell<u32>,
+    /// start barrier (only for programs that use Set/Wait): opened by thread 0
+    /// once every thread handle is registered
+    start: std::cell::Cell<bool>,
+    done: std::cell::Cell<u32>,
+    threads: std::sync::Mutex<Vec<loom::thread::Thread>>,
     /// C17: kanal's lock around a loom-tracked cell, and an overlap monitor
     #[cfg(not(feature = "seam"))]
     lock: kanal::verif::SpinMutex<loom::cell::UnsafeCell<u64>>,
@@ -158,12 +169,55 @@ unsafe impl Send for Flags {}
 impl Flags {
     pub fn new() -> Flags {
         Flags {
-            m: loom::sync::Mutex::new(0),
-            cv: loom::sync::Condvar::new(),
+            flag: std::cell::Cell::new(0),
+            start: std::cell::Cell::new(false),
+            done: std::cell::Cell::new(0),
+            threads: std::sync::Mutex::new(vec![loom::thread::current()]),
             #[cfg(not(feature = "seam"))]
             lock: kanal::verif::SpinMutex::new(loom::cell::UnsafeCell::new(0)),
             inside: std::cell::Cell::new(0),
             acquired: std::cell::Cell::new(0),
+        }
+    }
+    fn unpark_all(&self) {
+        let me = loom::thread::current().id();
+        let ts: Vec<_> = self.threads.lock().unwrap().clone();
+        for t in ts {
+            if t.id() != me {
+                t.unpark();
+            }
+        }
+    }
+    /// thread 0, after spawning: register every handle, then open the barrier
+    pub fn open(&self, handles: Vec<loom::thread::Thread>) {
+        *self.threads.lock().unwrap() = handles;
+        self.start.set(true);
+        self.unpark_all();
+    }
+    /// first thing a spawned thread does (programs with Set/Wait only)
+    pub fn wait_start(&self) {
+        while !self.start.get() {
+            loom::thread::park();
+        }
+    }
+    /// last thing a spawned thread does: tell thread 0 (registered first)
+    pub fn finished(&self) {
+        self.done.set(self.done.get() + 1);
+        let main = self.threads.lock().unwrap()[0].clone();
+        main.unpark();
+    }
+    pub fn wait_finished(&self, n: u32) {
+        while self.done.get() < n {
+            loom::thread::park();
+        }
+    }
+    fn set(&self, i: usize) {
+        self.flag.set(self.flag.get() | (1 << i));
+        self.unpark_all();
+    }
+    fn wait(&self, i: usize) {
+        while self.flag.get() & (1 << i) == 0 {
+            loom::thread::park();
         }
     }
     /// the lock word is created lazily: the creating thread touches it first
@@ -199,50 +253,176 @@ impl Flags {
     }
 }
 
-struct CountWaker(usize);
-impl Wake for CountWaker {
-    fn wake(self: Arc<Self>) {
-        self.wake_by_ref()
-    }
-    fn wake_by_ref(self: &Arc<Self>) {
-        hist::HIST.with(|h| h.borrow_mut().wakes[self.0] += 1);
+// ---- harness wakers -------------------------------------------------------
+//
+// Hand-made RawWakers with book-keeping: every waker identity has one record
+// (clones share its address, so `will_wake` works as for Arc-based wakers) that
+// counts the handles the channel holds (clones made while kanal code runs,
+// minus the ones it dropped or consumed).  Waking through a handle the channel
+// no longer holds — e.g. `wake_by_ref` on the waker stored in a future that has
+// already been dropped — is an access to freed memory that neither loom nor
+// the tracker can see otherwise.
+
+enum WakeKind {
+    /// counting waker W0 / W1
+    Count(usize),
+    /// executor waker: flag + unpark
+    Exec {
+        flag: loom::sync::atomic::AtomicBool,
+        thread: loom::thread::Thread,
+    },
+}
+
+pub struct WakerRec {
+    kind: WakeKind,
+    kanal_handles: std::cell::Cell<i64>,
+    /// loom-visible probe (tracking runs only): dropping a handle writes it,
+    /// waking reads it, so loom's partial-order reduction explores both orders
+    /// of "the owner drops the stored waker" and "the peer wakes through it"
+    probe: Option<loom::sync::atomic::AtomicUsize>,
+}
+
+thread_local! {
+    static WAKER_ARENA: std::cell::RefCell<Vec<Box<WakerRec>>> = const { std::cell::RefCell::new(Vec::new()) };
+    /// set while the harness itself clones / drops / creates a waker handle
+    static HARNESS_CTX: std::cell::Cell<bool> = const { std::cell::Cell::new(false) };
+}
+
+/// records of the previous execution are released here
+pub fn reset_wakers() {
+    WAKER_ARENA.with(|a| a.borrow_mut().clear());
+    HARNESS_CTX.with(|c| c.set(false));
+}
+
+fn harness<R>(f: impl FnOnce() -> R) -> R {
+    let old = HARNESS_CTX.with(|c| c.replace(true));
+    let r = f();
+    HARNESS_CTX.with(|c| c.set(old));
+    r
+}
+
+fn in_harness() -> bool {
+    HARNESS_CTX.with(|c| c.get())
+}
+
+unsafe fn rec<'a>(p: *const ()) -> &'a WakerRec {
+    &*(p as *const WakerRec)
+}
+
+fn fire(r: &WakerRec) {
+    match &r.kind {
+        WakeKind::Count(i) => hist::HIST.with(|h| h.borrow_mut().wakes[*i] += 1),
+        WakeKind::Exec { flag, thread } => {
+            flag.store(true, std::sync::atomic::Ordering::Release);
+            thread.unpark();
+        }
     }
 }
 
-/// Executor waker: one flag per waker (only plain loads / stores on it) plus
-/// unpark of the executor's thread.  The executor sleeps on the flag of the
-/// waker it passed to the *last* poll, so waking a stale waker leaves it
-/// asleep (a deadlock loom reports).
-struct ExecWaker {
-    flag: loom::sync::atomic::AtomicBool,
-    thread: loom::thread::Thread,
-}
-impl Wake for ExecWaker {
-    fn wake(self: Arc<Self>) {
-        self.wake_by_ref()
-    }
-    fn wake_by_ref(self: &Arc<Self>) {
-        self.flag.store(true, std::sync::atomic::Ordering::Release);
-        self.thread.unpark();
+fn check_live(r: &WakerRec, how: &str) {
+    if !in_harness() && r.kanal_handles.get() <= 0 && kanal_verif_rt::ctl::tracking() {
+        kanal_verif_rt::ctl::violation(
+            "use-after-return",
+            &format!("{how} through a waker handle the channel no longer holds (the future that stored it has been dropped)"),
+        );
     }
 }
-fn exec_waker() -> Arc<ExecWaker> {
-    Arc::new(ExecWaker {
-        flag: loom::sync::atomic::AtomicBool::new(false),
-        thread: loom::thread::current(),
-    })
+
+unsafe fn vt_clone(p: *const ()) -> std::task::RawWaker {
+    if !in_harness() {
+        let r = rec(p);
+        r.kanal_handles.set(r.kanal_handles.get() + 1);
+    }
+    std::task::RawWaker::new(p, &VTABLE)
+}
+fn probe_read(r: &WakerRec) {
+    if !in_harness() {
+        if let Some(p) = &r.probe {
+            p.load(std::sync::atomic::Ordering::Relaxed);
+        }
+    }
+}
+unsafe fn vt_wake(p: *const ()) {
+    let r = rec(p);
+    probe_read(r);
+    check_live(r, "wake()");
+    fire(r);
+    if !in_harness() {
+        r.kanal_handles.set(r.kanal_handles.get() - 1);
+    }
+}
+unsafe fn vt_wake_by_ref(p: *const ()) {
+    let r = rec(p);
+    probe_read(r);
+    check_live(r, "wake_by_ref()");
+    fire(r);
+}
+unsafe fn vt_drop(p: *const ()) {
+    if !in_harness() {
+        let r = rec(p);
+        if let Some(pr) = &r.probe {
+            pr.fetch_add(1, std::sync::atomic::Ordering::Relaxed);
+        }
+        r.kanal_handles.set(r.kanal_handles.get() - 1);
+    }
+}
+static VTABLE: std::task::RawWakerVTable = std::task::RawWakerVTable::new(vt_clone, vt_wake, vt_wake_by_ref, vt_drop);
+
+/// A waker handle owned by the harness (its clone / drop do not count as the
+/// channel's).
+pub struct HWaker {
+    w: Option<Waker>,
+    rec: *const WakerRec,
+}
+
+impl HWaker {
+    fn new(kind: WakeKind) -> HWaker {
+        let b = Box::new(WakerRec {
+            kind,
+            kanal_handles: std::cell::Cell::new(0),
+            probe: kanal_verif_rt::ctl::tracking().then(|| loom::sync::atomic::AtomicUsize::new(0)),
+        });
+        let p = &*b as *const WakerRec;
+        WAKER_ARENA.with(|a| a.borrow_mut().push(b));
+        let w = harness(|| unsafe { Waker::from_raw(std::task::RawWaker::new(p as *const (), &VTABLE)) });
+        HWaker { w: Some(w), rec: p }
+    }
+    fn counting(i: usize) -> HWaker {
+        HWaker::new(WakeKind::Count(i))
+    }
+    fn executor() -> HWaker {
+        HWaker::new(WakeKind::Exec {
+            flag: loom::sync::atomic::AtomicBool::new(false),
+            thread: loom::thread::current(),
+        })
+    }
+    fn waker(&self) -> &Waker {
+        self.w.as_ref().unwrap()
+    }
+    fn flag(&self) -> &loom::sync::atomic::AtomicBool {
+        match unsafe { &(*self.rec).kind } {
+            WakeKind::Exec { flag, .. } => flag,
+            _ => unreachable!(),
+        }
+    }
+}
+
+impl Drop for HWaker {
+    fn drop(&mut self) {
+        let w = self.w.take();
+        harness(|| drop(w));
+    }
 }
 
 pub fn block_on<F: Future>(mut fut: Pin<&mut F>, repoll: bool) -> F::Output {
     use std::sync::atomic::Ordering::{Acquire, Relaxed};
-    let mut ew = exec_waker();
+    let mut ew = HWaker::executor();
     let mut switched = !repoll;
     loop {
         // stale wake-ups of earlier registrations are discarded here; a wake
         // for the registration the coming poll makes lands after this store
-        ew.flag.store(false, Relaxed);
-        let waker = Waker::from(ew.clone());
-        let mut cx = Context::from_waker(&waker);
+        ew.flag().store(false, Relaxed);
+        let mut cx = Context::from_waker(ew.waker());
         if let Poll::Ready(v) = fut.as_mut().poll(&mut cx) {
             return v;
         }
@@ -250,10 +430,10 @@ pub fn block_on<F: Future>(mut fut: Pin<&mut F>, repoll: bool) -> F::Output {
             // spurious poll with a *different* waker right away; from now on
             // only the new one counts
             switched = true;
-            ew = exec_waker();
+            ew = HWaker::executor();
             continue;
         }
-        while !ew.flag.load(Acquire) {
+        while !ew.flag().load(Acquire) {
             loom::thread::park();
         }
     }
@@ -324,10 +504,7 @@ impl<T: Payload> Ctx<T> {
             hr: hr.into_iter().map(Box::new).collect(),
             futs: [FutI::Empty, FutI::Empty, FutI::Empty, FutI::Empty],
             fut_tags: [None; 4],
-            wakers: [
-                Waker::from(Arc::new(CountWaker(0))),
-                Waker::from(Arc::new(CountWaker(1))),
-            ],
+            wakers: [HWaker::counting(0), HWaker::counting(1)],
             flags,
         }
     }
@@ -589,8 +766,7 @@ impl<T: Payload> Ctx<T> {
                 Out::r(Res::Unit)
             }
             Op::Poll(slot, w) => {
-                let waker = self.wakers[w as usize].clone();
-                let mut cx = Context::from_waker(&waker);
+                let mut cx = Context::from_waker(self.wakers[w as usize].waker());
                 let fut = &mut self.futs[slot as usize];
                 let r = catch_unwind(AssertUnwindSafe(|| match fut {
                     FutI::Empty => panic!("Poll on an empty slot"),
@@ -619,6 +795,9 @@ impl<T: Payload> Ctx<T> {
                             .or_else(|| p.downcast_ref::<String>().cloned())
                             .unwrap_or_default();
                         if m.contains("polled after result") {
+                            // documented panic, caught here: it is not the
+                            // failure of this execution
+                            crate::runner::clear_last_panic();
                             Out::r(Res::Panicked)
                         } else {
                             resume_unwind(p)
@@ -761,17 +940,11 @@ impl<T: Payload> Ctx<T> {
             #[cfg(feature = "seam")]
             Op::LockL | Op::LockT => panic!("lock programs run on the default build"),
             Op::Set(i) => {
-                let mut g = self.flags.m.lock().unwrap();
-                *g |= 1 << i;
-                drop(g);
-                self.flags.cv.notify_all();
+                self.flags.set(i as usize);
                 Out::r(Res::Unit)
             }
             Op::Wait(i) => {
-                let mut g = self.flags.m.lock().unwrap();
-                while *g & (1 << i) == 0 {
-                    g = self.flags.cv.wait(g).unwrap();
-                }
+                self.flags.wait(i as usize);
                 Out::r(Res::Unit)
             }
         }
